@@ -19,7 +19,7 @@ def ctor_cfg(tier, ctors):
                       "INVARIANT Inv", "INVARIANT Export", "CHECK_DEADLOCK FALSE", ""])
 
 
-def ctor_stage(prop, tier, name, ctors, faults, only_cats=None):
+def ctor_stage(prop, tier, name, ctors, faults, only_cats=None, only_k=None):
     wd = workdir(prop)
     stage_spec(wd, ["Ctor.tla", "MC_Ctor.tla"])
     exe = build_harness("a")
@@ -50,6 +50,8 @@ def ctor_stage(prop, tier, name, ctors, faults, only_cats=None):
     res["rule"] = ("one run per terminal state of Ctor.tla (constructor x actual length x reported lengths/hints x panic point x capacity slack); "
                    "non-trivial = a fault is injected or the input misreports (C07), every length/constructor/hint regime (C06)")
     for v in s["violations"]:
+        if only_k and v["case"]["ctor"] in only_k and v["case"]["k"] not in only_k[v["case"]["ctor"]]:
+            continue  # cases of that constructor family which concern another property
         if only_cats:
             v["errors"] = [e for e in v["errors"] if e.startswith("[") and e[1:e.index("]")] in only_cats]
             if not v["errors"]:
